@@ -173,6 +173,16 @@ pub fn analyze_pattern(
         }
     }
 
+    // A name that some binding set does not bind holds nil when that set is the one that matches.
+    for (name, types) in bindings_map.iter_mut() {
+        let bound_by_all = binding_sets
+            .iter()
+            .all(|set| set.bindings.iter().any(|b| &b.name == name));
+        if !bound_by_all {
+            types.push(program.register_type(Type::nil()));
+        }
+    }
+
     // Sort by name to ensure consistent ordering (must match generate_pattern_code)
     let mut all_bindings: Vec<(String, usize)> = bindings_map
         .into_iter()
@@ -201,6 +211,10 @@ pub fn generate_pattern_code(
 ) -> Result<(), Error> {
     let mut end_jumps = Vec::new();
     let mut next_set_jumps = Vec::new();
+    let all_names: std::collections::BTreeSet<String> = binding_sets
+        .iter()
+        .flat_map(|set| set.bindings.iter().map(|b| b.name.clone()))
+        .collect();
 
     for (i, binding_set) in binding_sets.iter().enumerate() {
         // Patch jumps from previous iteration that should skip to this binding set
@@ -263,12 +277,15 @@ pub fn generate_pattern_code(
         }
 
         // If we get here, all checks passed - extract bindings
-        // Sort by name to ensure consistent ordering across binding sets (important for unions
-        // where different variants may have bindings in different field orders)
-        let mut sorted_bindings: Vec<_> = binding_set.bindings.iter().collect();
-        sorted_bindings.sort_by(|a, b| a.name.cmp(&b.name));
-        for binding in sorted_bindings {
-            generate_value_access(codegen, &binding.path);
+        // Every binding set stores one local per name bound by *any* set, in name order, so the
+        // locals line up with the indices the compiler assigned whichever set matched (variants
+        // may bind in different field orders, or — `* = r` on a union of records — different
+        // names). A name this set does not bind holds nil.
+        for name in &all_names {
+            match binding_set.bindings.iter().find(|b| &b.name == name) {
+                Some(binding) => generate_value_access(codegen, &binding.path),
+                None => codegen.add_instruction(Instruction::Tuple(quiver_core::types::NIL)),
+            }
             codegen.add_instruction(Instruction::Store);
         }
 
